@@ -129,6 +129,16 @@ pub trait Fam: 'static {
     fn set_extend_ref(_set: &mut griddle::HashSet<Self::K, VH>, _items: &[Self::K]) -> bool {
         false
     }
+    /// `ParallelExtend<(&K, &V)>` / `ParallelExtend<&T>` (rayon feature), `Copy` elements only
+    fn par_extend_ref(
+        _map: &mut griddle::HashMap<Self::K, Self::V, VH>,
+        _items: &[(Self::K, Self::V)],
+    ) -> bool {
+        false
+    }
+    fn set_par_extend_ref(_set: &mut griddle::HashSet<Self::K, VH>, _items: &[Self::K]) -> bool {
+        false
+    }
 }
 
 // ---------------------------------------------------------------------------------------------
@@ -226,6 +236,16 @@ impl Fam for FamP {
     }
     fn set_extend_ref(set: &mut griddle::HashSet<PK, VH>, items: &[PK]) -> bool {
         set.extend(items.iter());
+        true
+    }
+    fn par_extend_ref(map: &mut griddle::HashMap<PK, PV, VH>, items: &[(PK, PV)]) -> bool {
+        use rayon::prelude::*;
+        map.par_extend(items.par_iter().map(|(k, v)| (k, v)));
+        true
+    }
+    fn set_par_extend_ref(set: &mut griddle::HashSet<PK, VH>, items: &[PK]) -> bool {
+        use rayon::prelude::*;
+        set.par_extend(items.par_iter());
         true
     }
 }
